@@ -1614,8 +1614,11 @@ func IsFileModified(filepath string) (bool, error) {
 		"-c", "core.quotepath=false", // handle special chars in filenames
 		"status",
 		"--porcelain",
+		"-z", // NUL-terminated entries, so that no path is ever quoted
 		"--", // separator in case filename ambiguous
-		filepath,
+		// The path is relative to the top of the working tree and is
+		// meant literally, wherever we have been started from.
+		":(top,literal)" + filepath,
 	}
 	cmd, err := git(args...)
 	if err != nil {
@@ -1629,7 +1632,9 @@ func IsFileModified(filepath string) (bool, error) {
 		return false, lfserrors.Wrap(err, tr.Tr.Get("Failed to start `git status`"))
 	}
 	matched := false
-	for scanner := bufio.NewScanner(outp); scanner.Scan(); {
+	scanner := bufio.NewScanner(outp)
+	scanner.Split(tools.SplitOnNul)
+	for scanner.Scan() {
 		line := scanner.Text()
 		// Porcelain format is "<I><W> <filename>"
 		// Where <I> = index status, <W> = working copy status
